@@ -142,11 +142,16 @@ def seqOp (sc : Sc) (st : St) (i : Nat) (op : Op) : St :=
 
 /-- an operation started while the reload of key `k0` (by worker `w0`, mode `m0`) is paused; readers that attach to the entry being
 written are finished later: returned as pending (operation index, reader id) -/
-def winOp (sc : Sc) (st : St) (i : Nat) (op : Op) (k0 _m0 : Nat) (pend : List (Nat × Nat)) : St × List (Nat × Nat) :=
+def winOp (sc : Sc) (st : St) (i : Nat) (op : Op) (k0 _m0 w0 : Nat) (pend : List (Nat × Nat)) : St × List (Nat × Nat) :=
   match op with
   | .R w k =>
     if k == k0 then
-      let s1 := openR hashId st.s w k
+      -- the writing worker's own transactions find its in-transit entry in its local store_table, whether or not other workers
+      -- may read the shared copy yet (appending)
+      let a0 := st.s.anchors k
+      let sLocal := if w == w0 && a0.writer == some w0 then startApp st.s w0 k else st.s
+      let s1raw := openR hashId sLocal w k
+      let s1 := if w == w0 && a0.writer == some w0 then setA s1raw k { (s1raw.anchors k) with appending := a0.appending } else s1raw
       if s1.nextR > st.s.nextR then ({ st with s := s1 }, pend ++ [(i, st.s.nextR)])
       else (missFetch sc st i w k, pend)
     else (seqOp sc st i op, pend)
@@ -177,7 +182,7 @@ def go (sc : Sc) : Nat → Nat → List Op → St → St
         let win := rest.take j
         let res := (List.range win.length).foldl (fun (acc : St × List (Nat × Nat)) x =>
           match win[x]? with
-          | some o => winOp sc acc.1 (i + 1 + x) o k m acc.2
+          | some o => winOp sc acc.1 (i + 1 + x) o k m w acc.2
           | none => acc) (st1, [])
         let st2 := res.1
         -- the writer still holds the slot only if nobody replaced its incarnation meanwhile
